@@ -229,6 +229,24 @@ func (x *Exec) model(fn *ssa.Function, name string) modelFn {
 			x.assume(st, app(SBool, "=", r, And(Eq(a.Len, b.Len), same)), "bytes.Equal")
 			cont(st, scalar(r, types.Typ[types.Bool]))
 		}
+	case "bytes.Compare":
+		// -1, 0 or +1; 0 exactly when the two byte strings are equal (the order itself is not
+		// modelled); nil slices are empty byte strings
+		return func(st *State, fr *Frame, fn *ssa.Function, args []*Val, pos token.Pos, cont retFn) {
+			a, b := args[0], args[1]
+			r := x.freshConst(st, "bytescmp", SInt)
+			x.assume(st, And(Ge(r, IntLit(-1)), Le(r, IntLit(1))), "bytes.Compare range")
+			if a.K == kSlice && b.K == kSlice {
+				key := "E|uint8|"
+				arr := x.heapGet(st, key, SInt)
+				ia, ib := Select(arr, a.Arr), Select(arr, b.Arr)
+				i := Var("i!bc", SInt)
+				same := Forall([][2]string{{"i!bc", SInt}}, Implies(And(Le(IntLit(0), i), Lt(i, a.Len)),
+					app(SBool, "=", Select(ia, Add(a.Off, i)), Select(ib, Add(b.Off, i)))))
+				x.assume(st, app(SBool, "=", Eq(r, IntLit(0)), And(Eq(a.Len, b.Len), same)), "bytes.Compare")
+			}
+			cont(st, scalar(r, types.Typ[types.Int]))
+		}
 	}
 	return nil
 }
